@@ -25,7 +25,8 @@ def completed_checkpoints(records, world, upto_inc):
     per_inc = {}
     for r in out:
         per_inc[r["i"]] = per_inc.get(r["i"], 0) + 1
-        res.append((r["i"], per_inc[r["i"]]))
+        # the event names its checkpoint: one taken by a signal handler nests inside (and outlives) an unfinished one
+        res.append((r["i"], r["ckpt"] if r.get("ckpt") is not None else per_inc[r["i"]]))
     return res
 
 
